@@ -16,7 +16,7 @@ import (
 func TestVerifC19FLP(t *testing.T) {
 	defer vlib.Done()
 	sub := "flp/histogram"
-	vlib.Check(t, vlib.N(600, 4000), func(t *rapid.T) {
+	vlib.Check(t, vlib.N(600, 2500), func(t *rapid.T) {
 		length := uint(rapid.IntRange(1, 300).Draw(t, "length"))
 		chunk := c19wb.Chunk(t, int(length))
 		f := newFlpHistogram(length, chunk)
